@@ -90,12 +90,12 @@ func (u *scriptedUnit) Release(force bool) error {
 }
 
 type ctlEnv struct {
-	n      *netceptor.Netceptor
-	cs     *controlsvc.Server
-	w      *workceptor.Workceptor
-	dir    string
-	events []string // effects recorded by scripted units
-	addrNet string  // network name reported by the server side of new sessions ("unix", "tcp", "netceptor-x")
+	n       *netceptor.Netceptor
+	cs      *controlsvc.Server
+	w       *workceptor.Workceptor
+	dir     string
+	events  []string // effects recorded by scripted units
+	addrNet string   // network name reported by the server side of new sessions ("unix", "tcp", "netceptor-x")
 }
 
 func (e *ctlEnv) record(kind, id string) { e.events = append(e.events, kind+" "+id) }
